@@ -1033,6 +1033,12 @@ func (c *Client) DialToSMTPClientWithContext(ctxDial context.Context) (*smtp.Cli
 		return nil, err
 	}
 
+	// The timeout does not only apply to establishing the connection but to the whole dial
+	// dialogue (greeting, EHLO/HELO, STARTTLS, AUTH), otherwise a server that goes silent
+	// would block the caller forever.
+	if deadline, ok := ctx.Deadline(); ok {
+		_ = connection.SetDeadline(deadline)
+	}
 	client, err := smtp.NewClient(connection, c.host)
 	if err != nil {
 		return nil, err
@@ -1061,6 +1067,7 @@ func (c *Client) DialToSMTPClientWithContext(ctxDial context.Context) (*smtp.Cli
 		_ = client.Close()
 		return nil, err
 	}
+	_ = connection.SetDeadline(time.Time{})
 
 	return client, nil
 }
